@@ -11,16 +11,16 @@ git -C /repo worktree add -q --detach $wt HEAD || exit 2
 trap "git -C /repo worktree remove --force $wt; git -C /repo worktree prune" EXIT
 cd $wt
 demo=$(ls $src/tests/zz_*demo*_test.go $src/*/zz_*demo*_test.go 2>/dev/null | head -1)
-demoname=$(grep -o "^func Test[A-Za-z0-9_]*" $demo | head -1 | sed 's/func //')
+demoname=$(grep -o "^func Test[A-Za-z0-9_]*" $demo | sed 's/func //' | paste -sd'|')
 echo "demo file $demo test $demoname"
 git apply --check $src/MUTATION.diff || { echo "RESULT patch-does-not-apply"; exit 3; }
 cp $demo tests/
 # without the change
-go test -vet=off -count=1 -run "^$demoname\$" ./tests/ > /tmp/seed-$id-without.log 2>&1; w=$?
+go test -vet=off -count=1 -run "^($demoname)\$" ./tests/ > /tmp/seed-$id-without.log 2>&1; w=$?
 git apply $src/MUTATION.diff
 go build ./... || { echo "RESULT does-not-build"; exit 3; }
-go test -vet=off -count=1 -run "^$demoname\$" ./tests/ > /tmp/seed-$id-with.log 2>&1; m=$?
-go test -vet=off -count=1 -timeout 25m -skip "^$demoname\$" ./... > /tmp/seed-$id-suite.log 2>&1; s=$?
+go test -vet=off -count=1 -run "^($demoname)\$" ./tests/ > /tmp/seed-$id-with.log 2>&1; m=$?
+go test -vet=off -count=1 -timeout 25m -skip "^($demoname)\$" ./... > /tmp/seed-$id-suite.log 2>&1; s=$?
 echo "demo without change: exit $w; demo with change: exit $m; suite with change: exit $s"
 if [ $w -eq 0 ] && [ $m -ne 0 ] && [ $s -eq 0 ]; then
   mkdir -p /verif/seeded/$id
